@@ -10,6 +10,7 @@ export VERIF_DIR="${VERIF_DIR:-/verif}"
 HERE="$(cd "$(dirname "$0")" && pwd)"
 export VERIF_HOME="$HERE"
 REPO="${VERIF_REPO:-/repo}"
+export VERIF_REPO="$REPO"
 BUILD="$HERE/build"
 mkdir -p "$BUILD" "$VERIF_DIR/evidence" "$VERIF_DIR/replays"
 
